@@ -56,7 +56,9 @@ Pids == 1..Len(ps)
 Live == {p \in Pids : ps[p].st \in {"run", "hung"}}
 Zomb == {p \in Pids : ps[p].st = "zomb"}
 Known(p) == p >= 1 /\ p <= Len(ps)
-Stopping == stopT >= 0
+\* shutting down: listeners closed outside a reload, or a boot failure has been reaped (halt)
+Stopping == stopT >= 0 \/ bf # 0
+Ghosts == {p \in W : p <= Len(ps) /\ ps[p].ghost}     \* C03's business (fork/assign window)
 Slack == 2 * C.T + C.jit
 ExitCode(status) == status \div 256
 
@@ -147,7 +149,8 @@ Wait(e) ==
   ELSE /\ verdict' = Fail(<< <<"BadTrace", "ANY", Known(p) /\ (IF Known(p) THEN ps[p].st = "zomb" ELSE TRUE)>> >>)
        /\ ps' = IF Known(p) THEN [ps EXCEPT ![p].st = "reaped"] ELSE ps
        /\ bf' = IF bf = 0 /\ code \in {3, 4} THEN code ELSE bf
-       /\ UNCHANGED <<W, tg, mode, stopT, nopen, pend, rl, hupq, rel, lastDeath>>
+       /\ rl' = IF code \in {3, 4} THEN FALSE ELSE rl        \* HaltServer interrupts a reload
+       /\ UNCHANGED <<W, tg, mode, stopT, nopen, pend, hupq, rel, lastDeath>>
 
 Select(e) ==
   /\ verdict' = Fail(<<
@@ -229,9 +232,10 @@ End(e) ==
        <<"NoZombieLeft", "C03", ~serving \/ Zomb = {}>>,
        <<"Converged", "C03", ~serving \/ (Live = W /\ Cardinality(Live) = nw)>>,
        <<"TargetIsRequested", "C03", ~serving \/ nw = tg>>,
-       <<"HungReplaced", "C11", ~serving \/ ({p \in Live : ps[p].st = "hung"} = {} /\ Cardinality(Live) = nw)>>,
+       <<"HungReplaced", "C11", ~serving \/ ({p \in Live : ps[p].st = "hung"} = {}
+                                              /\ (Cardinality(Live) = nw \/ Ghosts # {}))>>,
        <<"OnlyNewGenerationAfterReload", "C10", ~(serving /\ gen) \/ \A p \in Live : p > rel.age>>,
-       <<"NewNumberAfterReload", "C10", ~(serving /\ gen) \/ (Cardinality(Live) = tg /\ nw = tg)>>,
+       <<"NewNumberAfterReload", "C10", ~(serving /\ gen) \/ ((Cardinality(Live) = tg \/ Ghosts # {}) /\ nw = tg)>>,
        <<"ListenersOpenWhileServing", "C10", ~serving \/ nopen > 0>> >>)
   /\ Keep
 
